@@ -13,5 +13,5 @@ s = [m['summary'] for m in s if m['property'] == sys.argv[1]]
 if s:
     print('\nAVOID (already seeded by other engineers; pick a different function / clause): ' + ' | '.join(s))
 PY
-  sed "s/TAG/$tag/g" /verif/tools/seed_prompt.txt > /tmp/seed_$tag/prompt.txt
+  sed "s/TAG/$tag/g" ${SEED_PROMPT:-/verif/tools/seed_prompt.txt} > /tmp/seed_$tag/prompt.txt
 done
